@@ -56,6 +56,7 @@ SocketServer::~SocketServer()
 {
 	if(_thread) {
 		_thread->kill();
+		_thread->join(); // it may still be leaving its trampoline, which writes to the thread object
 		delete _thread;
 	}
 }
